@@ -228,6 +228,32 @@ def check_l5(ctx) -> None:
                'cache key does not read the text (content coverage is C08 P5)')
 
 
+def check_l7(ctx) -> None:
+    """The Monte-Carlo driver looks the base value of a `#` input up in the base input file with its own line matcher.  Like the
+    simulator's reader it must look at the parameter-name field at the start of the line, not anywhere in the line (comments,
+    descriptions and other parameters' values may mention the name)."""
+    repo = ctx.repo
+    if not repo.has_module('geophires_monte_carlo/MC_GeoPHIRES3.py'):
+        return
+    f = repo.function('geophires_monte_carlo/MC_GeoPHIRES3.py', 'check_and_replace_mean')
+    rel = f.module.rel
+    tests = [n for n in ast.walk(f.node) if isinstance(n, ast.If) and any(isinstance(x, ast.Name) and x.id == 'vari_name' for x in ast.walk(n.test))]
+    ctx.require(len(tests) == 1, 'check_and_replace_mean: the line matcher on vari_name was not found (idiom changed)')
+    t = tests[0].test
+    txt = norm(t)
+    anchored = (isinstance(t, ast.Call) and isinstance(t.func, ast.Attribute) and t.func.attr == 'startswith') or \
+        (isinstance(t, ast.Compare) and len(t.ops) == 1 and isinstance(t.ops[0], ast.Eq) and 'split' in txt and '[0]' in txt)
+    anywhere = isinstance(t, ast.Compare) and len(t.ops) == 1 and isinstance(t.ops[0], ast.In) or '.find(' in txt or 're.search' in txt
+    if anchored:
+        ctx.ok('L7', 'check_and_replace_mean/name-matched-at-line-start', f'{rel}:{tests[0].lineno}', txt)
+    elif anywhere:
+        ctx.bad('L7', 'check_and_replace_mean/name-matched-at-line-start', f'{rel}:{tests[0].lineno}',
+                f'`{txt}` matches the parameter name anywhere in a line: a comment or description that mentions the name ahead of the real '
+                f'entry supplies the mean of the distribution, so the Monte-Carlo result depends on comment lines of the base file')
+    else:
+        raise AnalysisError(f'check_and_replace_mean: matcher `{txt[:60]}` not recognised (cannot decide)')
+
+
 def run(ctx) -> None:
     ctx.rule('L5', 'the client cache key distinguishes every pair of input texts the reader can distinguish (text hashed unmodified)')
     ctx.rule('L1', 'read_input_file: text mode with universal newlines, stripped lines, comment prefixes exactly {#, --, *}, '
@@ -241,4 +267,6 @@ def run(ctx) -> None:
     check_l3(ctx)
     check_l4(ctx)
     check_l5(ctx)
+    ctx.rule('L7', 'the Monte-Carlo driver matches the name of a `#` input at the start of a base-file line')
+    check_l7(ctx)
     ctx.undecided('nothing numeric is involved; encodings other than UTF-8 are outside the property')
